@@ -48,6 +48,7 @@ from epsie import proposals as P
 
 DYADIC_BETAS = [0.0, 0.125, 0.25, 0.375, 0.5, 0.625, 0.75, 0.875, 1.0]
 RTOL = 1e-9
+MAX_FINDINGS = 3          # distinct failing inputs reported per search (the first ones found)
 
 
 def _feq(a, b):
@@ -294,6 +295,8 @@ def acceptance_oracle(seed, tier, full=False):
         for key, text, payload in f:
             if not any(k == key for k, _, _ in findings):
                 findings.append((key, text, dict(payload, how_to_replay='./check C01 --replay <this file>')))
+        if len(findings) >= MAX_FINDINGS:
+            break
     stats['cases'] = len(cases)
     stats['families'] = fam_hist
     return findings, stats
@@ -457,6 +460,8 @@ def exact_kernel(seed, tier, full=False):
         for key, text, payload in run_lattice(cfg, N, stats=stats):
             if not any(k == key for k, _, _ in findings):
                 findings.append((key, text, dict(payload, how_to_replay='./check C01 --replay <this file>')))
+        if len(findings) >= MAX_FINDINGS:
+            break
     stats['lattices'] = len(idxs)
     return findings, stats
 
